@@ -19,6 +19,9 @@
 //	b2b             grpcclients.NewCASBlobAccess <-> servers over bufconn,
 //	                compared operation by operation with the same operation
 //	                on an identical backend used directly.
+//	cfg_frontend    the fronting BlobAccess built by pkg/blobstore/configuration
+//	                (decorator stack over `grpc {}`), the same content under
+//	                several instance names, compared with a twin backend (cfg.go).
 //	ac              the same for NewACBlobAccess <-> ActionCacheServer.
 //	concurrent      several goroutines on one client connection (-race).
 //
@@ -50,6 +53,8 @@ func main() {
 			"read case = object x identity|zstd x read offset (boundaries, inner, out of range, extreme) x chunk size x backend chunking x {absent, corrupt, backend stream error at byte i, Get error, Send error at message j, encoder unavailable, malformed name, read_limit}; " +
 			"batch case = 2-5 calls of BatchUpdateBlobs/BatchReadBlobs/FindMissingBlobs with 0-21 entries mixing valid, mismatching, malformed, duplicate, absent, corrupt and backend-failing objects, explicit or inferred digest function, size limits 0..1 MiB, truthful or lying backend; " +
 			"back-to-back case = 4-12 Put/Get/FindMissing operations through client+server and on a twin backend, with identical injected faults, zstd negotiated or not; " +
+			"configured-frontend case = a BlobAccessConfiguration (0-3 layers of existence_caching {size 1..1000, FIFO|LRU|RR} / deadline_enforcing over grpc {compression on|off}, leaf inline or behind a label) built by NewBlobAccessFromConfiguration against an in-memory storage node, used directly or through a second server+client hop, " +
+			"x 1-3 contents each addressed under 2-4 instance names x 5-12 Put/Get/FindMissing operations with identical injected faults on a twin backend, then one FindMissing per instance name; " +
 			"distinct = (engine, compressor, reference defect class) for uploads, (compressor, size, offset, chunk size) for reads, entry-kind vectors for batch calls, (operation, result code, mode) for back-to-back; non-trivial = every case (each involves at least one protocol decision)",
 		Workers:     8,
 		CaseTimeout: 300 * time.Second, // the machine is shared; a hang is still caught by the dump test
@@ -84,6 +89,13 @@ func main() {
 			"b2b_failing_ops":                               150,
 			"b2b_zstd_negotiated":                           15,
 			"ac_ops":                                        100,
+			"cfg_ops":                                       800,
+			"cfg_cases_with_existence_cache":                50,
+			"cfg_cases_two_hop":                             15,
+			// FindMissing asked for a digest the backend lacks under that instance
+			// name after a cached stack had reported the same content present under
+			// another one: the history in which an instance-blind decorator shows.
+			"cfg_fm_absent_here_reported_present_elsewhere": 80,
 			"concurrent_roundtrips":                         60,
 		},
 		Assumptions: []string{
@@ -93,6 +105,7 @@ func main() {
 			"the zstd library (klauspost) is trusted; the reference decodes with its own streaming decoder instance",
 			"instance names avoid '.' and '..' components (P6 belongs to C20)",
 			"status codes are compared only where the backend's own status is relayed (batch entry status, FindMissingBlobs errors, back-to-back differential)",
+			"configured frontend: the fronted backend never loses or evicts an object, so an existence cache is transparent; objects have at least one byte (the configuration layer answers for the empty blob itself, by design); a FindMissing answered from the cache while the backend fails is counted, not flagged",
 		},
 		Body: body,
 	})
@@ -132,6 +145,7 @@ func body(w *run.Worker) {
 	})
 	w.Cases("write_wire", only("write_wire", w.N(320, 5000)), func(c *run.Case) { caseWriteWire(c, w) })
 	w.Cases("b2b", only("b2b", w.N(200, 4000)), func(c *run.Case) { caseBackToBack(c, w) })
+	w.Cases("cfg_frontend", only("cfg_frontend", w.N(128, 2400)), func(c *run.Case) { caseConfiguredFrontend(c, w) })
 	w.Cases("ac", only("ac", w.N(96, 1200)), func(c *run.Case) { caseActionCache(c, w) })
 	w.Cases("concurrent", only("concurrent", w.N(16, 200)), func(c *run.Case) { caseConcurrent(c, w) })
 }
